@@ -485,6 +485,20 @@ def check_C10(tier):
         ck.add_result(res)
         for k, v in res["counters"].items():
             cnt[k] = cnt.get(k, 0) + v
+    # games that TRADE DOWN from more material than a game starts with (ChessGameLong.tla, policy "trade": whoever can capture
+    # usually does): extra queens and rooks, an early capturing promotion. Their late positions - bare kings with a piece or two,
+    # the last capture often made by a king - have a history that has seen more material than the board shows; whatever the
+    # engine keeps incrementally must still say what the board says (the driver asks the path-built position as well as a fresh one)
+    surplus = ["1q1q1q1k/7r/8/8/8/8/R7/K1Q1Q1Q1 w - - 0 1", "rnbqkbnr/Pppppppp/8/8/8/8/1PPPPPPP/RNBQKBNR w KQkq - 0 1",
+               "7k/1q1q1q2/8/8/8/8/2Q1Q1Q1/R3K3 w Q - 0 1", "rnbqkbnr/pppppppp/8/8/8/8/PPPPPPPp/RNBQKBN1 b Qkq - 0 1"]
+    tcfg = game_cfg(220, 220, ["Move"], [], walks=16 if tier == "quick" else 200, walkseed=SEED)
+    tcfg = tcfg.replace("INIT Init\nNEXT Next", "SPECIFICATION LSpec").replace("CONSTANTS\n", "CONSTANTS\n  Mark = 55\n  Policy = \"trade\"\n")
+    at = vlib.tlc("ChessGameLong", tcfg, files={"roots.ndjson": roots_ndjson(surplus)}, workers=8, tag="trade-walk", timeout=3600)
+    ck.add_tlc(at)
+    res = chess_replay([at], ["C10"])
+    ck.add_result(res)
+    for k, v in res["counters"].items():
+        cnt[k] = cnt.get(k, 0) + v
     ad = art_deep(tier)
     ck.add_tlc(ad)
     res = chess_replay([ad], ["C10"])
@@ -646,7 +660,7 @@ def check_C05(tier):
     # hash-table chains run in circles, from the initial position a long game with most of the material on the board
     FORT = "4k3/p1p1p1p1/8/p1p1p1p1/P1P1P1P1/8/P1P1P1P1/4K3 w - - 0 1"
     lcfg = game_cfg(383, 383, ["Move"], [], invariants=("TypeOK", "PosWellFormed", "NotFiftyMoveDrawn", "Obs"), walks=4 if quick else 24, walkseed=SEED)
-    lcfg = lcfg.replace("INIT Init\nNEXT Next", "SPECIFICATION LSpec").replace("CONSTANTS\n", "CONSTANTS\n  Mark = 55\n")
+    lcfg = lcfg.replace("INIT Init\nNEXT Next", "SPECIFICATION LSpec").replace("CONSTANTS\n", "CONSTANTS\n  Mark = 55\n  Policy = \"manoeuvre\"\n")
     la = vlib.tlc("ChessGameLong", lcfg, files={"roots.ndjson": roots_ndjson([FORT, START_FEN])}, workers=4, tag="long-walk", timeout=3600)
     ck.add_tlc(la)
     lnodes = sl.load_nodes(la, want=lambda o: len(o["legal"]) > 0 and (len(o["path"]) in (383, 382, 380, 377, 373) or (o["root"] == 2 and len(o["path"]) >= 200 and len(o["path"]) % 11 == 0)))
